@@ -13,9 +13,11 @@ fn hh<T: Hash>(t: &T) -> u64 {
 
 /// Two renderings of the model alphabet; the second maps letters to multi-character
 /// tokens (upper/lower case consistent), so the same cases exercise longer URIs.
-const MAPS: [(&str, [(&str, &str); 6]); 2] = [
+const MAPS: [(&str, [(&str, &str); 6]); 3] = [
     ("plain", [("a", "a"), ("A", "A"), ("b", "b"), ("/", "/"), (".", "."), (" ", " ")]),
     ("tokens", [("a", "ex-ample.org"), ("A", "EX-AMPLE.ORG"), ("b", "b~1"), ("/", "/"), (".", "."), (" ", "\u{7f}")]),
+    // the forbidden character is one beyond ASCII (two octets in a str; offered as the single octet 0xE9 through the byte parsers)
+    ("beyond-ascii", [("a", "a"), ("A", "A"), ("b", "b"), ("/", "/"), (".", "."), (" ", "\u{e9}")]),
 ];
 const NONE: &str = "<none>";
 
@@ -36,8 +38,23 @@ const RSCHEMES: [&str; 3] = ["rsync://", "RSYNC://", "rSyNc://"];
 const HSCHEMES: [&str; 3] = ["https://", "HTTPS://", "hTtPs://"];
 
 fn replay_string(s: &mut Summary, c: &Value) {
-    for map in 0..2 {
+    for map in 0..3 {
         let body = render(&c["s"], map).unwrap();
+        // octets beyond ASCII through the parsers that take octets: every one of them is a forbidden character
+        if map == 2 && body.contains('\u{e9}') {
+            for (sch, hs) in RSCHEMES.iter().zip(HSCHEMES.iter()) {
+                for high in [0xE9u8, 0xA1, 0xC1, 0xFE, 0x80, 0xFF] {
+                    let raw = |scheme: &str| -> Vec<u8> { let mut v = scheme.as_bytes().to_vec(); for ch in body.chars() { if ch == '\u{e9}' { v.push(high) } else { v.push(ch as u8) } } v };
+                    let (r, h) = (raw(sch), raw(hs));
+                    if matches!(guarded(|| Rsync::from_slice(&r).is_ok() || Rsync::from_bytes(bytes::Bytes::from(r.clone())).is_ok()), Ok(true) | Err(_)) {
+                        s.violation("rsync:accepts-malformed", format!("octets {r:02x?} accepted (or a panic) although {high:#x} is no URI character"), json!({"case": c, "octets": r}));
+                    }
+                    if matches!(guarded(|| Https::from_slice(&h).is_ok() || Https::from_bytes(bytes::Bytes::from(h.clone())).is_ok()), Ok(true) | Err(_)) {
+                        s.violation("https:accepts-malformed", format!("octets {h:02x?} accepted (or a panic) although {high:#x} is no URI character"), json!({"case": c, "octets": h}));
+                    }
+                }
+            }
+        }
         // ---- rsync
         for sch in RSCHEMES {
             let text = format!("{sch}{body}");
